@@ -202,7 +202,8 @@ NODE_RULE = ("node profile: histories of the aol / pnft / burn generators decora
 prop(id="C20", vfile="Properties/C20.v",
      runs=lambda tier, seed: [dict(profile="keystore", seed=seed, n=_sizes(tier, 1, 6)),
                               dict(profile="conc", seed=seed, n=_sizes(tier, 1, 6), race=True),
-                              dict(profile="node", seed=seed, n=_sizes(tier, 6, 150), extra=["-blocks", "8", "-conc", "4"], race=True)],
+                              dict(profile="node", seed=seed, n=_sizes(tier, 6, 150), extra=["-blocks", "8", "-conc", "4"], race=True),
+                              dict(profile="node", seed=seed + 5, n=_sizes(tier, 3, 40), extra=["-blocks", "8", "-conc", "4", "-kind", "did"], race=True)],
      rule=KS_RULE + " || conc profile (race-detector build): ValidateBasic, GetSigners, GetSignBytes and String of ~1600 messages "
           "(all boundary cases of the valid profile plus DID documents with 60 distinct unregistered key types) from 8 goroutines "
           "in different orders; race reports are attributed by the innermost non-runtime frame of the two accesses || " + NODE_RULE,
